@@ -430,7 +430,7 @@ fn run_cli_inner(c: &CliCase, _st: &mut RunStats) -> Verdict {
                 cmd.stdin(std::process::Stdio::null());
             }
         }
-        let out = cmd.output().map_err(|e| format!("cannot run {}: {}", bin, e))?;
+        let out = pipesim::output_with_deadline(cmd, 60).map_err(|e| format!("cannot run {} to completion: {}", bin, e))?;
         if out.status.success() {
             Ok(())
         } else {
